@@ -24,4 +24,101 @@ theorem peaks_dominate (v : List ℚ) :
 example : ∃ p ∈ peaks [5, 1, 3, -1], |([5, 1, 3, -1] : List ℚ).getD 2 0| ≤ |([5, 1, 3, -1] : List ℚ).getD p 0| :=
   peaks_dominate _ 2 (by decide)
 
+/-- **C11.a** For a non-constant series the reported indices are strictly ascending, start at `0`, and end at the
+first index `k` of the final constant run (`v[k-1] ≠ v[k]`, `v` constant on `[k, n)`). -/
+theorem peaks_shape (v : List ℚ) (hv : NonConstant v) :
+    (peaks v).Pairwise (· < ·) ∧ (peaks v).head? = some 0 ∧
+    ∃ k, (peaks v).getLast? = some k ∧ 0 < k ∧ k < v.length ∧ v.getD (k-1) 0 ≠ v.getD k 0 ∧
+      ∀ j, k ≤ j → j < v.length → v.getD j 0 = v.getD k 0 := by
+  have hne := nonConstant_ne_nil v hv
+  have hm := two_le_runs v hv
+  refine ⟨peaks_pairwise v hv, peaks_head v hne, _, peaks_getLast v, ?_, idxs_lt v _ (by omega), ?_, ?_⟩
+  · have := idxs_strictMono v 0 ((runs v).length - 1) (by omega) (by omega)
+    omega
+  · have hmem : (idxs v).getD ((runs v).length - 1) 0 ∈ idxs v := by
+      rw [getD_eq _ _ _ (by simp; omega)]; exact List.getElem_mem _
+    have h0 := idxs_strictMono v 0 ((runs v).length - 1) (by omega) (by omega)
+    rcases ((mem_idxs v _).mp hmem).2 with h | h
+    · omega
+    · exact fun e => h e.symm
+  · intro j h1 h2
+    exact const_after_last v hne j h1 h2
+
+example : NonConstant [1, 1, 2, 1, 1] ∧ peaks [1, 1, 2, 1, 1] = [0, 2, 3] := by decide +kernel
+
+/-- **C11.b** Between consecutive reported indices `p < q` the series is weakly monotone with `v[p] ≠ v[q]`
+(first conjunct: strictly rising end values and non-decreasing inside, or strictly falling and non-increasing),
+and the direction strictly alternates from each segment to the next (second conjunct). -/
+theorem peaks_segments (v : List ℚ) (hv : NonConstant v) :
+    (∀ k, k + 1 < (peaks v).length →
+      (v.getD ((peaks v).getD k 0) 0 < v.getD ((peaks v).getD (k+1) 0) 0 ∧
+        ∀ s t, (peaks v).getD k 0 ≤ s → s ≤ t → t ≤ (peaks v).getD (k+1) 0 → v.getD s 0 ≤ v.getD t 0) ∨
+      (v.getD ((peaks v).getD (k+1) 0) 0 < v.getD ((peaks v).getD k 0) 0 ∧
+        ∀ s t, (peaks v).getD k 0 ≤ s → s ≤ t → t ≤ (peaks v).getD (k+1) 0 → v.getD t 0 ≤ v.getD s 0)) ∧
+    (∀ k, k + 2 < (peaks v).length →
+      (v.getD ((peaks v).getD (k+1) 0) 0 - v.getD ((peaks v).getD k 0) 0) *
+        (v.getD ((peaks v).getD (k+2) 0) 0 - v.getD ((peaks v).getD (k+1) 0) 0) < 0) :=
+  ⟨fun k hk => orig_segment v hv k hk, fun k hk => orig_alternate v hv k hk⟩
+
+example : NonConstant [0, 2, 2, 1, 3] ∧ (peaks [0, 2, 2, 1, 3]).length = 4 := by decide +kernel
+
+/-- **C11.c** An index is reported iff it is `0`, the last reported index (first sample of the final constant run,
+see `peaks_shape`), or a turning point `IsTurn v i`: the first sample of a plateau `[i, j)` whose predecessor
+`v[i-1]` and successor `v[j]` lie strictly on the same side of the plateau value. -/
+theorem peaks_complete (v : List ℚ) (hv : NonConstant v) (i : ℕ) :
+    i ∈ peaks v ↔ i = 0 ∨ (peaks v).getLast? = some i ∨ IsTurn v i := by
+  have hne := nonConstant_ne_nil v hv
+  constructor
+  · intro hi
+    obtain ⟨q, hq, rfl⟩ := (mem_peaks_iff v i).mp hi
+    rcases (mem_peaksCleaned _ _).mp hq with h | h | h
+    · left; rw [h]; exact idxs_zero v hne
+    · right; right; exact turn_of_mem v hne q h
+    · right; left; rw [peaks_getLast, h]; simp
+  · rintro (h | h | h)
+    · rw [h]; exact List.mem_of_mem_head? (peaks_head v hne)
+    · exact List.mem_of_getLast? h
+    · exact mem_of_turn v hne i h
+
+example : NonConstant [0, 1, 3, 3, 2, 2, 4] ∧ IsTurn [0, 1, 3, 3, 2, 2, 4] 2 ∧ 2 ∈ peaks [0, 1, 3, 3, 2, 2, 4] := by
+  refine ⟨by decide +kernel, ⟨by decide, 4, by decide, by decide, ?_, by decide +kernel⟩, by decide +kernel⟩
+  intro t h1 h2
+  have : t = 2 ∨ t = 3 := by omega
+  rcases this with rfl | rfl <;> rfl
+
+/-- **C11.d** (fixed parity rule `first_move = values[P[1]] - values[P[0]]`) For **every** non-constant series,
+flat starts included, `ptype='max'` / `'min'` return, in order, exactly the reported indices that are local
+maxima / minima, an index being classified by its adjacent segment(s): `LocalMaxAt v k` says that the next reported
+value is smaller or the previous reported value is smaller (for interior peaks both hold, by C11.b). -/
+theorem ptype_spec (v : List ℚ) (hv : NonConstant v) :
+    (peaksMax v).Sublist (peaks v) ∧ (peaksMin v).Sublist (peaks v) ∧
+    (∀ i, i ∈ peaksMax v ↔ ∃ k, k < (peaks v).length ∧ (peaks v).getD k 0 = i ∧ LocalMaxAt v k) ∧
+    (∀ i, i ∈ peaksMin v ↔ ∃ k, k < (peaks v).length ∧ (peaks v).getD k 0 = i ∧ LocalMinAt v k) :=
+  ⟨peaksMax_sublist v, peaksMin_sublist v, mem_peaksMax v hv, mem_peaksMin v hv⟩
+
+example : NonConstant [1, 1, 2, 1] ∧ peaksMax [1, 1, 2, 1] = [2] ∧ peaksMin [1, 1, 2, 1] = [0, 3] := by
+  decide +kernel
+
+/-- C11.d, complement: every reported index is a local maximum or a local minimum and never both, so
+`peaksMax` and `peaksMin` partition `peaks`. -/
+theorem ptype_partition (v : List ℚ) (hv : NonConstant v) (k : ℕ) (hk : k < (peaks v).length) :
+    LocalMaxAt v k ↔ ¬ LocalMinAt v k :=
+  localMax_iff_not_localMin v hv k hk
+
+example : NonConstant [1, 1, 2, 1] ∧ 1 < (peaks [1, 1, 2, 1]).length := by decide +kernel
+
+/-- C11.d, meaning of the classification: a reported index classified as a local maximum (minimum) carries a value
+`≥` (`≤`) every sample of its two adjacent segments — from the previous reported index (or the start) to the next
+reported index (or, for the last reported index, to the end of the series). -/
+theorem ptype_extremal (v : List ℚ) (hv : NonConstant v) (k : ℕ) (hk : k < (peaks v).length)
+    (t : ℕ) (ht : t < v.length)
+    (h1 : k = 0 ∨ (peaks v).getD (k-1) 0 ≤ t) (h2 : k + 1 = (peaks v).length ∨ t ≤ (peaks v).getD (k+1) 0) :
+    (LocalMaxAt v k → v.getD t 0 ≤ v.getD ((peaks v).getD k 0) 0) ∧
+    (LocalMinAt v k → v.getD ((peaks v).getD k 0) 0 ≤ v.getD t 0) :=
+  ⟨fun hm => localMax_dominates v hv k hk hm t ht h1 h2, fun hm => localMin_dominated v hv k hk hm t ht h1 h2⟩
+
+example : NonConstant [0, 1, 3, 3, 2, 2, 4] ∧ LocalMaxAt [0, 1, 3, 3, 2, 2, 4] 1 := by
+  refine ⟨by decide +kernel, Or.inl ?_⟩
+  decide +kernel
+
 end EqsigVerif.Props.C11
